@@ -1,5 +1,6 @@
 """C05 — sampled joint degree sequences are handshake-consistent minimal perturbations."""
 import json
+from fractions import Fraction
 import random as _random
 
 from core.runner import Prop
@@ -170,17 +171,24 @@ class C05(Prop):
         ws = [w for _, w in case["jdd"]]
         for c in obs["weighted_calls"]:
             if len(c["population"]) == len(c["weights"]):
-                pairs = sorted((tuple(k) if isinstance(k, list) else k, w) for k, w in zip(c["population"], c["weights"]) if w != 0)
-                if pairs != sorted((tuple(k), w) for k, w in zip(keys, ws) if w != 0):
+                got_w, want_w = {}, {}
+                for k, w in zip(c["population"], c["weights"]):
+                    k = tuple(k) if isinstance(k, list) else k
+                    if w != 0:
+                        got_w[k] = got_w.get(k, 0) + Fraction(w)
+                for k, w in zip(keys, ws):
+                    if w != 0:
+                        want_w[tuple(k)] = want_w.get(tuple(k), 0) + Fraction(w)
+                zg, zw = sum(got_w.values()), sum(want_w.values())
+                # proportional: a common factor (normalised weights) or a split entry is the same distribution
+                if not zg or {k: w / zg for k, w in got_w.items()} != {k: w / zw for k, w in want_w.items()}:
                     f.append("weights-misaligned: keys are not drawn in proportion to their weights")
         if not obs["rng"]["n_unexpected"]:
             nd = sum(c["k"] for c in obs["weighted_calls"])
             if nd != N:
                 f.append(f"draw-count: {nd} keys drawn for N={N}")
-        for n in obs["uniform_picks"]:
-            if n != N:
-                f.append(f"vertex-pick-range: a uniform pick among {n} alternatives is not a uniform pick among the {N} vertices")
-                break
+        # (WHICH vertices receive the added stubs, and through which random primitive they are chosen, is compared with the model;
+        #  the property only bounds how many stubs are added and forbids removals)
         if obs["unusable"]:
             f.append("unusable: " + obs["unusable"][0][:120])
         if not obs["jdd_untouched"]:
